@@ -137,8 +137,111 @@ def cache_programs(ctx, n, length, units=(1,), nkeys=(3, 5, 8)):
     return progs
 
 
-def check_seq_cache(ctx, prop):
+def exhaustive_cache_model(ctx):
+    cfg = "TTLCache.cfg" if ctx.thorough else "TTLCache_quick.cfg"
+    res = lib.tlc_exhaustive("TTLCache", cfg, timeout=3600)
+    ctx.add_model("TTLCache/" + cfg, res)
+    ctx.cov["exhaustive"] = True
+    ctx.cov["exhaustive_scope"] = "TLC exhaustive: CacheImplSeq against CacheSem, %s (all call sequences over the menu within MaxW value-creating calls and the clock bound)" % cfg
+
+
+def behaviours_to_programs(behs, kind="Cache", kt="", vt="", unit=1):
+    progs = []
+    for b in behs:
+        h = b[0]
+        cfg = {"kind": kind, "keytype": kt, "valtype": vt, "ctor": "New", "hasdef": True, "def": h["def"] // unit, "hasintv": True, "interval": 0, "cb": h["cb"]}
+        ops = []
+        for e in b[1:]:
+            if e["ev"] == "tick":
+                ops.append({"op": "Tick", "d": e["d"]})
+            else:
+                ops.append({"op": e["op"], "k": e["k"], "v": e["v"], "d": e["d"], "fn": e["fn"]})
+        progs.append({"cache": cfg, "unit": unit, "ops": ops, "note": "tlc-simulate"})
+    return progs
+
+
+CMP_FIELDS = ("op", "k", "rv", "ok", "x", "n", "fo", "fl", "c0", "c1", "now")
+
+
+def compare_predicted(ctx, behs, runs, label):
+    """Conformance (not a verdict): the real observations must equal the ones the implementation-shaped
+    model predicted for the same program."""
+    diffs = 0
+    for b, lines in zip(behs, runs):
+        for pe, raw in zip(b[1:], lines[1:]):
+            re_ = json.loads(raw)
+            if pe["ev"] == "tick":
+                continue
+            bad = [f for f in CMP_FIELDS if pe.get(f) != re_.get(f)]
+            if sorted((x["k"], x["v"], x["cb"]) for x in pe["evs"]) != sorted((x["k"], x["v"], x["cb"]) for x in re_["evs"]):
+                bad.append("evs")
+            if sorted((x["k"], x["v"]) for x in pe["vis"]) != sorted((x["k"], x["v"]) for x in re_["vis"]):
+                if not (pe["op"] == "Range" and pe["fn"].startswith("stop") and len(pe["vis"]) == len(re_["vis"])):
+                    bad.append("vis")
+            if bad:
+                diffs += 1
+                if diffs <= 3:
+                    ctx.drift.append("%s: implementation-shaped model CacheImplSeq predicts %s, real code gives %s (fields %s)" % (
+                        label, json.dumps(slim(pe)), json.dumps(slim(re_)), bad))
+                break
+    return diffs
+
+
+def small_scope_programs(depth, kind, kt, vt):
+    """All call sequences of length <= depth over a one-key menu, for two configurations."""
+    import itertools
+    NOEXP, DEFEXP = gen.NOEXP_NS, gen.DEFEXP_NS
+    menu = [("Set", 1), ("Set", NOEXP), ("Set", DEFEXP), ("Get", 0), ("GetWithTTL", 0), ("GetWithExpiration", 0), ("GetOrSet", 1), ("GetAndSet", 1),
+            ("GetAndRefresh", 1), ("GetAndRefresh", 0), ("GetOrCompute", 1), ("Compute:set", 1), ("Compute:del", 1), ("Compute:delret", 1),
+            ("GetAndDelete", 0), ("Delete", 0), ("DeleteExpired", 0), ("Items", 0), ("Tick", 1), ("Tick", 2)]
+    readers = ("Tick", "Get", "GetWithTTL", "GetWithExpiration", "Items", "DeleteExpired", "Delete", "GetAndDelete")
+    progs = []
+    for cfgv in ({"hasdef": True, "def": 2, "cb": "cb1"}, {"cb": ""}):
+        for L in range(1, depth + 1):
+            for seq in itertools.product(menu, repeat=L):
+                if seq[0][0] in readers and L > 1:
+                    continue  # a read/tick on an empty cache first adds nothing beyond the shorter program
+                ops = []
+                n = 0
+                for (o, d) in seq:
+                    n += 1
+                    fn = ""
+                    if ":" in o:
+                        o, fn = o.split(":")
+                    if o == "Tick":
+                        ops.append({"op": "Tick", "d": d})
+                    else:
+                        ops.append({"op": o, "k": "k1", "v": "v%d" % n, "d": d, "fn": fn})
+                ops += [{"op": "GetWithExpiration", "k": "k1"}, {"op": "Count"}]
+                cfg = dict({"kind": kind, "keytype": kt, "valtype": vt, "ctor": "New", "hasintv": True, "interval": 0}, **cfgv)
+                progs.append({"cache": cfg, "unit": 1, "ops": ops, "note": "small-scope L=%d" % L})
+    return progs
+
+
+def check_seq_cache(ctx, prop, model=True):
+    if model:
+        exhaustive_cache_model(ctx)
+    # spec -> code: behaviours generated by TLC from the implementation-shaped model
+    nb, depth = (96, 30) if not ctx.thorough else (1600, 40)
+    behs, r = lib.tlc_simulate("TTLCache", "TTLCache_sim.cfg", nb, depth, workers=8 if not ctx.thorough else 16, timeout=3600)
+    ctx.cov["tlc_models"].append({"spec": "TTLCache/TTLCache_sim.cfg (simulate)", "behaviours": len(behs), "states_checked": r.get("generated"), "wall_s": round(r["wall"], 1)})
+    ctx.cov["transitions"] += r.get("generated", 0)
+    drift = 0
+    for (kind, kt, vt) in (CONTAINERS_CACHE[:2] if not ctx.thorough else CONTAINERS_CACHE):
+        progs = behaviours_to_programs(behs, kind, kt, vt)
+        runs = run_seq(ctx, progs, "Trace_CacheSeq", prop, "%s[%s,%s] TLC behaviours" % (kind, kt, vt))
+        drift += compare_predicted(ctx, behs, runs, "%s[%s,%s]" % (kind, kt, vt))
+    ctx.cov["impl_conformance"] = "ok" if drift == 0 else "drift(%d behaviours)" % drift
+    ctx.cov["behaviours_replayed"] = len(behs)
+    # small scope, exhaustively enumerated programs
+    for (kind, kt, vt) in CONTAINERS_CACHE[:2]:
+        d = 3 if (ctx.thorough or kind == "Cache") else 2
+        progs = small_scope_programs(d, kind, kt, vt)
+        run_seq(ctx, progs, "Trace_CacheSeq", prop, "%s[%s,%s] small-scope depth %d" % (kind, kt, vt, d))
+    # code -> spec: seeded random programs with boundary-aimed clock advances, ns and s regimes
     n, length = (60, 120) if not ctx.thorough else (1500, 300)
+    if drift:
+        n *= 2
     base = cache_programs(ctx, n, length, units=(1, 1, 1_000_000_000))
     all_runs = {}
     for (kind, kt, vt) in CONTAINERS_CACHE:
@@ -147,14 +250,19 @@ def check_seq_cache(ctx, prop):
     return base, all_runs
 
 
+SEQ_ASSUMPTIONS = ["virtual clock: every time.Now/Until/NewTicker of the scratch copy is redirected by import substitution; nothing else of the repository is rewritten",
+                   "TLC integers are 32-bit: instants/durations in traces stay below 2^31 units (ns regime and s regime, never mixed in one trace)",
+                   "exhaustive part is bounded (2 keys, MaxW value-creating calls, clock bound); beyond it the evidence is seeded exploration validated by TLC"]
+
+
 def check_c01(ctx):
     check_seq_cache(ctx, "C01")
-    ctx.assumptions += ["virtual clock: every time.Now/Until/NewTicker in the scratch copy is redirected (import substitution)",
-                        "TLC integers are 32-bit: instants/durations in traces stay below 2^31 units (ns and s regimes)"]
+    ctx.assumptions += SEQ_ASSUMPTIONS
 
 
 def check_c09(ctx):
     check_seq_cache(ctx, "C09")
+    ctx.assumptions += SEQ_ASSUMPTIONS
 
 
 CHECKS = {"C01": check_c01, "C09": check_c09}
